@@ -16,13 +16,15 @@ import (
 // C11: single-shot detection = poker test with the length-appropriate m on exactly numByte bytes.
 
 type c11Case struct {
-	NumByte int     `json:"num_byte"`
-	Kind    string  `json:"kind"`
-	Seed    uint64  `json:"seed,omitempty"`
-	Alpha   []int   `json:"alphabet,omitempty"` // byte or nibble alphabet
-	Skew    float64 `json:"skew,omitempty"`
-	M       int     `json:"skew_m,omitempty"`
-	PriorPoker int  `json:"prior_poker_bytes,omitempty"` // history: the poker test was called before on this many high-valued bytes (m = 8 and m = 4)
+	NumByte    int     `json:"num_byte"`
+	Kind       string  `json:"kind"`
+	Seed       uint64  `json:"seed,omitempty"`
+	Alpha      []int   `json:"alphabet,omitempty"` // byte or nibble alphabet
+	Skew       float64 `json:"skew,omitempty"`
+	M          int     `json:"skew_m,omitempty"`
+	PriorPoker int     `json:"prior_poker_bytes,omitempty"` // history: the poker test was called before on this many high-valued bytes (m = 8 and m = 4)
+	Delivery   string  `json:"delivery,omitempty"`          // "" more bytes available than requested | "exact" the source ends right after the sample | "exact+eof" the final bytes arrive together with io.EOF
+	Chunk      int     `json:"chunk,omitempty"`             // > 0: the source returns at most this many bytes per Read
 }
 
 func (c c11Case) data() []byte {
@@ -73,8 +75,15 @@ func checkC11(c c11Case) (Outcome, error) {
 	}
 	// more bytes are available than requested: exactly numByte must be consumed
 	r := gen.NewReader(append(append([]byte{}, data...), gen.NewRng(c.Seed^1).Bytes(64)...))
+	if c.Delivery != "" {
+		r = gen.NewReader(append([]byte{}, data...))
+		r.EOFWithData = c.Delivery == "exact+eof"
+	}
+	if c.Chunk > 0 {
+		r.Plan = []int{c.Chunk}
+	}
 	v, err := detect.SingleDetect(r, c.NumByte)
-	out := Outcome{Classes: []string{"content:" + c.Kind}}
+	out := Outcome{Classes: []string{"content:" + c.Kind, "delivery:" + c.Delivery}}
 	if got := r.Consumed(); got != c.NumByte {
 		return out, violation("consumed", "SingleDetect(numByte=%d) consumed %d bytes from the source", c.NumByte, got)
 	}
@@ -140,6 +149,10 @@ func genC11(t *rapid.T) c11Case {
 	c := c11Case{NumByte: nb, Seed: rapid.Uint64().Draw(t, "seed")}
 	if rapid.IntRange(0, 2).Draw(t, "history") == 0 {
 		c.PriorPoker = rapid.SampledFrom([]int{1, 16, 100, 255, 256, 1000}).Draw(t, "prior_poker")
+	}
+	c.Delivery = rapid.SampledFrom([]string{"", "", "", "exact", "exact+eof"}).Draw(t, "delivery")
+	if rapid.IntRange(0, 3).Draw(t, "chunked") == 0 {
+		c.Chunk = rapid.SampledFrom([]int{1, 2, 7, 15, 16, 17, 512, 4096}).Draw(t, "chunk")
 	}
 	c.Kind = rapid.SampledFrom([]string{"uniform", "uniform", "constant", "byteAlphabet", "nibbleAlphabet", "skewed", "skewed", "skewed"}).Draw(t, "kind")
 	switch c.Kind {
